@@ -90,7 +90,7 @@ func solveOne(o *Obligation, dir string, idx int, timeoutS int, all bool) *Solve
 		all = false
 	}
 	file := filepath.Join(dir, fmt.Sprintf("o%05d.smt2", idx))
-	if err := os.WriteFile(file, []byte(o.SMT(false)), 0o644); err != nil {
+	if err := os.WriteFile(file, []byte(smtText(o, false)), 0o644); err != nil {
 		return &SolveResult{Status: "error", Output: err.Error()}
 	}
 	ctx, cancel := context.WithCancel(context.Background())
@@ -150,7 +150,7 @@ func getModel(o *Obligation, dir string, idx int, timeoutS int) map[string]strin
 		return nil
 	}
 	file := filepath.Join(dir, fmt.Sprintf("m%05d.smt2", idx))
-	if err := os.WriteFile(file, []byte(o.SMT(true)), 0o644); err != nil {
+	if err := os.WriteFile(file, []byte(smtText(o, true)), 0o644); err != nil {
 		return nil
 	}
 	for _, sp := range []solverSpec{solvers[0], solvers[1]} {
@@ -176,6 +176,15 @@ func getModel(o *Obligation, dir string, idx int, timeoutS int) map[string]strin
 		return m
 	}
 	return nil
+}
+
+// Terms cache their printed form lazily; printing is serialised.
+var smtMu sync.Mutex
+
+func smtText(o *Obligation, model bool) string {
+	smtMu.Lock()
+	defer smtMu.Unlock()
+	return o.SMT(model)
 }
 
 type oblResult struct {
